@@ -3,7 +3,7 @@ import props.C01 as c01
 import props.C05 as c05
 RULE = c01.RULE + ("; the harness itself compares the pending tables with the calls in flight after every history; census on real sockets: "
                    "goroutines inside wsrpc code (grouped by function) and pending records after 1, 5, 25 reconnects (proxy cuts) and 3x as many "
-                   "failed calls (client timeout, server timeout, unconnected key) must not exceed the baseline; sockets: sessions ended by the peer (with and without a close frame) with the collector switched off - the process must hold no socket of an ended session, on the server and on the client (child processes)")
+                   "failed calls (client timeout, server timeout, unconnected key) must not exceed the baseline; sockets and pumps: sessions ended by the peer (with and without a close frame), a write failure with a message in the read pump's hand, a timed-out write, with the collector switched off - the process must hold no socket of an ended session, on the server and on the client (child processes)")
 ASSUMPTIONS = c01.ASSUMPTIONS + ["goroutines, timers and sockets are runtime objects: counted (after runtime.GC), not modelled"]
 FILES = c05.FILES + ["root/c14_test.go"]
 
@@ -12,3 +12,12 @@ def run(ctx):
     c05.run(ctx, test="^TestVerifC14$", name="C14", files=FILES)
     import props.C10 as c10
     c10.run(ctx, test="^TestVerifC14Sockets$", name="C14", files=c10.FILES + ["root/c09_test.go", "root/c14s_test.go"])
+    # the pumps of a session which ends by itself must all end: the structural facts this rests on are re-read from the sources
+    import props.C09 as c09
+    facts = c09.shape(ctx)
+    if facts:
+        need = [("close", k) for k in ("rp_cconn", "rp_wdone", "wr_wdone", "wp_sock", "wp_cc_sock")] + \
+               [("stop", k) for k in ("srp_cconn", "swp_err_sock", "swp_cc_sock", "start_sock")] + \
+               [("struct", k) for k in ("after_pump_releases", "wg_add_before_go")]
+        missing = ["%s.%s" % (a, k) for a, k in need if not facts.get(a, {}).get(k)]
+        ctx.oblige(not missing, "C14_pump_exits", "(every pump and reader of a session has a way out when the session ends: %s no longer found in the sources)" % ", ".join(missing))
